@@ -72,7 +72,7 @@ class Flags:
         self.X = 'X' in fs
         self.SD = 'Y' in fs             # SCANDOTDIR
         self.Z = 'Z' in fs
-        self.I = 'I' in fs
+        self.I = 'I' in fs and 'C' not in fs
         self.O = 'O' in fs
         self.B = 'R' in fs              # implicit recursive prefix (rglob / _EXTMATCHBASE)
 
